@@ -29,6 +29,19 @@ def unhex(h):
     return bytes.fromhex(h).decode("latin-1")
 
 
+def run_many_long(items, workers=6, timeout=1800):
+    """cppbuild.run_many with a generous timeout (the machine may be heavily loaded); a timeout is
+    an infrastructure failure, never a violation."""
+    import concurrent.futures
+    with concurrent.futures.ThreadPoolExecutor(max_workers=workers) as ex:
+        futs = [ex.submit(cppbuild.run, b, t, timeout) for b, t in items]
+        out = [f.result() for f in futs]
+    for res in out:
+        if res.kind == "timeout":
+            raise common.InfraError("a C++ driver run timed out after %d s" % timeout)
+    return out
+
+
 def build():
     with open(os.path.join(HERE, "c06_intcodec.cc.txt")) as f:
         src = cppbuild.CHECK_PRELUDE + f.read()
@@ -81,8 +94,10 @@ def judge_decode(ty, text, observed):
     if observed[0] == "ok":
         v = observed[1]
         if rv is None:
-            if text.replace("_", "").replace("-", "") in ("0x", "0X", "0b", "0B") and v == 0:
-                return None, "prefix-then-only-underscores-accepted-as-0"
+            if "_" in text and text.replace("_", "").replace("-", "", 1) in ("", "0x", "0X", "0b", "0B") and v == 0:
+                # "0x_", "-_", "-0b__": sign/prefix followed by separators only reads as 0 (no digits,
+                # nothing to wrap): leniency, described not alarmed on
+                return None, "sign-or-prefix-then-only-underscores-accepted-as-0"
             return "accepted a text that is not a number (value %d)" % v, None
         if v != rv:
             return "decoded %d but the text denotes %d (wrapped?)" % (v, rv), None
@@ -135,7 +150,7 @@ def boundary_values(ty, r, n_random):
 
 
 MALFORMED = [
-    "", "-", "--1", "-0x", "-0b", "0x", "0X", "0b", "0B", "0x_", "0b_", "-0x_", "_", "_1", "1_", "1__2",
+    "", "-", "--1", "-0x", "-0b", "0x", "0X", "0b", "0B", "0x_", "0b_", "-0x_", "_", "-_", "-__", "-_0", "__", "_1", "1_", "1__2",
     "-_1", "0x_1", "0x1_", "0_x1", "+1", "+0", " 1", "1 ", "1,", "1#", "0x1g", "0b12", "0b2", "12a", "a",
     "0xg", "0o7", "1.0", "1e3", "0x-1", "-+1", "0X1F", "0B101", "0Xff", "0xFF", "0xfF", "-0", "-0x0",
     "-0b0", "00", "007", "0x0000000000000000000000001", "0b" + "0" * 70 + "1", "1" * 30, "-" + "1" * 30,
@@ -272,7 +287,7 @@ def run_int(chk, tier, model_ok, binary, seed_tag="C06-int"):
     for i, m in enumerate(meta):
         groups.setdefault(m[1] if m[0] in ("W", "D") else "tok", []).append(i)
     keys = sorted(groups)
-    results = cppbuild.run_many([(binary, "\n".join(ops[i] for i in groups[k]) + "\n") for k in keys], workers=4)
+    results = run_many_long([(binary, "\n".join(ops[i] for i in groups[k]) + "\n") for k in keys], workers=4)
     real = [None] * len(ops)
     for k, res in zip(keys, results):
         idx = groups[k]
@@ -361,7 +376,9 @@ def run_int(chk, tier, model_ok, binary, seed_tag="C06-int"):
             chk.nontrivial("t:" + t)
     # read-back of every text the real writer produced
     if ops2:
-        res2 = cppbuild.run(binary, "\n".join(ops2) + "\n", timeout=900)
+        res2 = cppbuild.run(binary, "\n".join(ops2) + "\n", timeout=1800)
+        if res2.kind == "timeout":
+            raise common.InfraError("intcodec read-back run timed out")
         if res2.kind != "ok":
             bad = _first_failing(binary, ops2)
             chk.violation("input", {"op": bad, "observed": "%s: %s" % (res2.kind, res2.err[-1500:]),
